@@ -1276,9 +1276,11 @@ fn scenario_foreach_sources(ctx: &Ctx, out: &mut WorkerOut, index: usize, dm: &s
     };
     let xml = format!(
         r##"<scxml {ns} datamodel="{dm}" name="fes">
-<datamodel><data id="arr" expr="{arr}"/><data id="box" expr="{boxv}"/><data id="grid" expr="{grid}"/><data id="sum" expr="0"/><data id="it" expr="0"/><data id="ix" expr="0"/><data id="jt" expr="0"/></datamodel>
+<datamodel><data id="names" expr="['x', 'y z', '']"/><data id="mixed" expr="[true, 2.5, 'q', null]"/><data id="arr" expr="{arr}"/><data id="box" expr="{boxv}"/><data id="grid" expr="{grid}"/><data id="sum" expr="0"/><data id="it" expr="0"/><data id="ix" expr="0"/><data id="jt" expr="0"/></datamodel>
 <state id="s">
-{trans}<transition event="error"><log expr="mark('error', _event.name)"/></transition>
+{trans}<transition event="go.strs"><foreach array="names" item="it" index="ix"><log expr="mark('it','strs',it,ix)"/></foreach></transition>
+<transition event="go.mixed"><foreach array="mixed" item="it"><log expr="mark('it','mixed',it)"/></foreach></transition>
+<transition event="error"><log expr="mark('error', _event.name)"/></transition>
 </state></scxml>"##,
         ns = XMLNS,
         dm = dm,
@@ -1324,6 +1326,23 @@ fn scenario_foreach_sources(ctx: &Ctx, out: &mut WorkerOut, index: usize, dm: &s
             }
             if prefix == "go" {
                 expected.push(vec!["sum".into(), n.to_string(), total.to_string()]);
+            }
+        }
+    }
+    // items that are not numbers: strings (also an empty one and one with a blank), booleans, doubles, null
+    for (ev, items) in [("go.strs", vec!["x", "y z", ""]), ("go.mixed", vec!["true", "2.5", "q", "null"])] {
+        if !ok {
+            break;
+        }
+        run.send(ev_with(ev, None, None, None, None, None));
+        idle += 1;
+        ok = run.wait_idle(idle) == Wait::Idle;
+        out.add("edges", 1);
+        for (k, v) in items.iter().enumerate() {
+            if ev == "go.strs" {
+                expected.push(vec!["it".into(), "strs".into(), v.to_string(), k.to_string()]);
+            } else {
+                expected.push(vec!["it".into(), "mixed".into(), v.to_string()]);
             }
         }
     }
